@@ -17,6 +17,7 @@ structure Sess where
   mem   : Mem := {}
   um    : User := {}      -- user state on the model side
   us    : User := {}      -- user state on the spec side
+  sparse : Bool := false  -- obs=sparse: used/free are printed by `observe` only
 
 def fmtPtr (p : Option Nat) : String := match p with | some a => s!" p={a}" | none => " p=NULL"
 
@@ -30,9 +31,11 @@ def phys (r : Option StaticPool) : String :=
   | some r => s!"size={r.core.size} free={r.core.free} high={r.core.high} bytes={fmtList r.core.bytes}"
 def inv (r : Option StaticPool) : Bool := match r with | none => true | some r => decide r.Inv
 
-def lineS (hd : String) (s : Sess) : String := s!"S {hd}{obsS s.spec}"
-def lineM (hd : String) (s : Sess) : String :=
-  s!"M {hd}{obsM s.model} | {phys s.model} | {fmtMem s.mem} | {fmtFlags (inv s.model) s.mem}"
+def lineS' (full : Bool) (hd : String) (s : Sess) : String := s!"S {hd}{if full then obsS s.spec else ""}"
+def lineM' (full : Bool) (hd : String) (s : Sess) : String :=
+  s!"M {hd}{if full then obsM s.model else ""} | {phys s.model} | {fmtMem s.mem} | {fmtFlags (inv s.model) s.mem}"
+def lineS (hd : String) (s : Sess) : String := lineS' (!s.sparse) hd s
+def lineM (hd : String) (s : Sess) : String := lineM' (!s.sparse) hd s
 
 def freshByte : Nat := 238   -- 0xEE, what the harness fills the region with
 
@@ -49,12 +52,16 @@ def step (s : Sess) (c : Cmd) : Sess × String × String :=
   | "new" =>
     let size := c.nat "size" 16
     let bytes := List.replicate size freshByte
-    let s' : Sess := { model := some (StaticPool.new size bytes), spec := some (Spec.SPool.init size bytes), mem := m }
+    let s' : Sess := { model := some (StaticPool.new size bytes), spec := some (Spec.SPool.init size bytes), mem := m,
+                       sparse := (c.str "obs").getD "full" == "sparse" }
     (s', lineS (fmtStat .ok) s', lineM (fmtStat .ok) s')
   | _ =>
   match s.model, s.spec with
   | some r, some f =>
     match c.op with
+    | "observe" =>
+      let s' : Sess := { s with mem := m }
+      (s', lineS' true "st=-" s', lineM' true "st=-" s')
     | "malloc" =>
       let n := c.arg 0
       -- model
@@ -72,7 +79,7 @@ def step (s : Sess) (c : Cmd) : Sess × String × String :=
       let (f', us) := match q with
         | some a => (f'.write a n (1 + s.us.pat % 250), { ptrs := s.us.ptrs ++ [q], pat := s.us.pat + 1 : User })
         | none => (f', { s.us with ptrs := s.us.ptrs ++ [q] })
-      let s' : Sess := { model := some r', spec := some f', mem := m, um, us }
+      let s' : Sess := { s with model := some r', spec := some f', mem := m, um, us }
       (s', lineS ("st=-" ++ fmtPtr q) s', lineM ("st=-" ++ fmtPtr p) s')
     | "calloc" =>
       let a := c.arg 0; let b := c.arg 1
@@ -95,7 +102,7 @@ def step (s : Sess) (c : Cmd) : Sess × String × String :=
       let (f', us) := match q with
         | some x => (f'.write x (a * b) (1 + s.us.pat % 250), { ptrs := s.us.ptrs ++ [q], pat := s.us.pat + 1 : User })
         | none => (f', { s.us with ptrs := s.us.ptrs ++ [q] })
-      let s' : Sess := { model := some r', spec := some f', mem := m, um, us }
+      let s' : Sess := { s with model := some r', spec := some f', mem := m, um, us }
       (s', lineS ("st=-" ++ fmtPtr q ++ zS) s', lineM ("st=-" ++ fmtPtr p ++ zM) s')
     | "free" =>
       let s' : Sess := { s with model := some (r.release (freeArg c s.um)), spec := some (f.release (freeArg c s.us)), mem := m }
